@@ -178,7 +178,7 @@ impl<K, V> FanoutMany<K, V> {
                     proof { lemma_step_keeps::<K, V, Item>(old(self).entries@, before, mid, idx as int); lemma_evict_keeps::<K, V, Item>(old(self).entries@, mid, self.entries@, idx as int); }
 //@end
 
-//@fn server/src/sink/fanout_many.rs :: Sink for FanoutMany :: start_send [props=C01 C08]
+//@fn server/src/sink/fanout_many.rs :: Sink for FanoutMany :: start_send [props=C01 C08] [noisolation]
     requires
         old(self).wf(),
         old(self).all_accepting::<Item>(),                                                                              // futures::Sink protocol: poll_ready first
@@ -190,14 +190,14 @@ impl<K, V> FanoutMany<K, V> {
 //@loop 1
         invariant_except_break
             idx <= self.entries@.len(),
-            forall|i: int| 0 <= i < idx ==> fed::<K, V, Item>(#[trigger] self.entries@[i], old(self).entries@, item),
+            forall|i: int| 0 <= i < idx ==> fed::<K, V, Item>(#[trigger] self.entries@[i], old(self).entries@, __p_item),
             forall|i: int| idx <= i < self.entries@.len() ==> same(#[trigger] self.entries@[i], old(self).entries@),
             forall|i: int| idx <= i < self.entries@.len() ==> (#[trigger] self.entries@[i]).1.accepting(),
         invariant
             self.wf(), old(self).wf(),
             healthy_survive::<K, V, Item>(old(self).entries@, self.entries@),
         ensures
-            forall|i: int| 0 <= i < self.entries@.len() ==> fed::<K, V, Item>(#[trigger] self.entries@[i], old(self).entries@, item),
+            forall|i: int| 0 <= i < self.entries@.len() ==> fed::<K, V, Item>(#[trigger] self.entries@[i], old(self).entries@, __p_item),
         decreases self.entries@.len() - idx
 //@hint before "let (_, sink) = &mut self.entries[idx]"
             let ghost before = self.entries@;
@@ -207,13 +207,13 @@ impl<K, V> FanoutMany<K, V> {
 //@hint after "self.entries.swap_remove(idx);" #1
                     proof { lemma_send_evict::<K, V, Item>(old(self).entries@, before, mid, self.entries@, idx as int); }
 //@hint before "break;"
-                proof { if self.entries@.len() > idx { lemma_send_ok::<K, V, Item>(old(self).entries@, before, self.entries@, idx as int, item); } }
+                proof { if self.entries@.len() > idx { lemma_send_ok::<K, V, Item>(old(self).entries@, before, self.entries@, idx as int, __p_item); } }
 //@hint before "self.entries.swap_remove(idx);" #2
                 let ghost mid = self.entries@;
 //@hint after "self.entries.swap_remove(idx);" #2
                 proof { lemma_send_evict::<K, V, Item>(old(self).entries@, before, mid, self.entries@, idx as int); }
 //@hint before "idx += 1"
-                proof { lemma_send_ok::<K, V, Item>(old(self).entries@, before, self.entries@, idx as int, item); }
+                proof { lemma_send_ok::<K, V, Item>(old(self).entries@, before, self.entries@, idx as int, __p_item); }
 //@end
 
 // start_send at index `idx` answered Ok: that entry is now fed, the rest is untouched
